@@ -328,6 +328,16 @@ pub fn run_scenario(sc: &Scenario, out: &mut CaseOut) -> (usize, bool) {
         if before == PS::Faulty && after != PS::Faulty && !peer_in_op {
             out.fail("port left the faulty state without a completed peer-delay exchange", format!("{:?}: Faulty -> {:?}", op, after));
         }
+        // (5') ... and that exchange must have been answered by exactly one responder: the exchange
+        //      that made the port faulty must not itself clear the fault (first responder's follow-up
+        //      arriving after the second responder's response)
+        if before == PS::Faulty && after != PS::Faulty && peer_in_op {
+            if let Some(c) = cur.as_ref() {
+                if c.multi {
+                    out.fail("port left the faulty state through an exchange answered by two responders", format!("{:?}: Faulty -> {:?}", op, after));
+                }
+            }
+        }
         // (4) a completed exchange answered by exactly one responder clears the fault
         if peer_in_op && after == PS::Faulty {
             if let Some(c) = cur.as_ref() {
